@@ -35,6 +35,7 @@ class DiscoveryOracle:
         self.rate = rate  # clock rate of the node (drift fault)
         self.sess = SessionModel()
         self.cands = {}  # (src,key) -> list of deadlines (INF, finite, DEAD)
+        self.ever_filters = set()
         self.certain = {}  # (src,key) -> bool
         self.replaced = {}  # (src,key) -> list of (deadline, epoch)
         self.regs = {}  # lname -> filter | "all"
@@ -72,6 +73,10 @@ class DiscoveryOracle:
 
     def registered_matching(self, key):
         return [l for l, f in self.regs.items() if fmatch(f, key)]
+
+    def filter_known(self, key):
+        """a filter that was watched once (watch_service, not watch-all) stays a key of the stack's table"""
+        return any(f != "all" and fmatch(f, key) for f in self.ever_filters)
 
     def _kill(self, sk, cause):
         """certain removal of (src,key): every registered listener that was told
@@ -119,6 +124,10 @@ class DiscoveryOracle:
                     self.epoch_kinds.add("stopoffer")
                     if listeners:
                         self._kill(sk, "stopoffer")
+                    elif self.filter_known(key):
+                        # nobody listens at the moment, but the filter is still known to the stack: the entry goes for sure
+                        self.cands.pop(sk, None)
+                        self.certain.pop(sk, None)
                     elif sk in self.cands:
                         self.cands[sk].append(DEAD)
                         self.certain[sk] = False
@@ -137,6 +146,12 @@ class DiscoveryOracle:
                     self.certain[sk] = True
                     for l in listeners:
                         self.mark.add((l, src, key))
+                elif self.filter_known(key):
+                    # the last listener of a filter may be gone, the filter stays known to the stack (its listener set is
+                    # empty): offers for it are stored and refreshed as before, a listener that comes later is told
+                    self.probe("offer_for_filter_without_listener")
+                    self.cands[sk] = [d]
+                    self.certain[sk] = True
                 else:
                     self.probe("unwatched_offer")
                     self.cands.setdefault(sk, [DEAD] if not old else []).append(d)
@@ -152,6 +167,7 @@ class DiscoveryOracle:
             flt = "all" if f == "watch_all" else self.filters[a[0]]
             self.regs[name] = flt
             self.was_reg[name] = flt
+            self.ever_filters.add(flt)
             if self.rx_in_epoch:
                 self.probe("watch_in_epoch_with_rx")
         elif f in ("unwatch", "unwatch_all"):
